@@ -52,8 +52,13 @@ class C07(Prop):
         for i in range(n):
             e = tr[i]
             cash_of = lambda ctx: sum(F(v) for c, v in ctx.nr_contracts.items() if type(c).__name__ == "Cash")
+            def kv_of(d):
+                items = sorted((c.symbol, F(v)) for c, v in d.items() if type(c).__name__ != "Cash" and abs(v) > 1e-9)
+                return ",".join(f"{k}:{fr(v)}" for k, v in items) if items else "-"
             r.op(f"recn {i}", f"{us(e.time)} {fr(e.profit_on_idle_cash)} {fr(e.context_pre.nlv)} {fr(e.context_post.nlv)} "
-                              f"{fr(cash_of(e.context_pre))} {fr(cash_of(e.context_post))}",
+                              f"{fr(cash_of(e.context_pre))} {fr(cash_of(e.context_post))} "
+                              f"ppre={kv_of(e.context_pre.nr_contracts)} mpre={kv_of(e.context_pre.margins)} "
+                              f"ppost={kv_of(e.context_post.nr_contracts)} mpost={kv_of(e.context_post.margins)}",
                  Fraction(1, 10**9) * s.scale())
         if case.get("latency"):
             r.tags.add("latency")
